@@ -104,7 +104,79 @@ def collect():
     import pymodbus.server.sync as _ss
     # the receive buffer socketserver uses for one datagram of the sync UDP server
     d('syncUdpMaxPacket', 'Nat', str(_ss.ModbusUdpServer.max_packet_size))
+    # C16: state that must be per connection - every async client protocol object gets its own framer (receive
+    # buffer) and its own transaction manager when it is built the way the factories build it (no framer argument)
+    d('asyncPerInstance', 'List (String × Bool × Bool × Bool)',
+      lean_list('(%s, %s, %s, %s)' % (lean_str(n), *('true' if x else 'false' for x in r)) for n, r in async_per_instance()))
+    d('asyncInitFramerReadsSelf', 'Bool', 'true' if async_init_reads_self_framer() else 'false')
+    # C16: what ModbusClientProtocol.dataReceived passes as `unit=` to the framer: the literal 0 (accept the unit of the
+    # buffered frame) or something computed (before 0a3302f: read off the chunk)
+    d('asyncDataReceivedUnit', 'String', lean_str(async_data_received_unit()))
     return out
+
+
+def async_data_received_unit():
+    """ast: the `unit=` argument of the processIncomingPacket call in ModbusClientProtocol.dataReceived:
+    'const:<value>' for a literal, 'computed:<source>' otherwise"""
+    import ast
+    import pymodbus.client.asynchronous.twisted as T
+    tree = ast.parse(open(T.__file__).read())
+    fn = [f for c in tree.body if isinstance(c, ast.ClassDef) and c.name == 'ModbusClientProtocol'
+          for f in c.body if isinstance(f, ast.FunctionDef) and f.name == 'dataReceived'][0]
+    calls = [n for n in ast.walk(fn) if isinstance(n, ast.Call) and getattr(n.func, 'attr', '') == 'processIncomingPacket']
+    if len(calls) != 1:
+        raise RuntimeError('dataReceived: expected exactly one processIncomingPacket call, found %d' % len(calls))
+    kw = [k.value for k in calls[0].keywords if k.arg == 'unit']
+    arg = kw[0] if kw else (calls[0].args[2] if len(calls[0].args) > 2 else None)
+    if arg is None:
+        return 'missing'
+    if isinstance(arg, ast.Constant):
+        return 'const:%r' % (arg.value,)
+    src = ast.unparse(arg)
+    # a plain name: report what is assigned to it in the function
+    if isinstance(arg, ast.Name):
+        for n in ast.walk(fn):
+            if isinstance(n, ast.Assign) and any(getattr(t, 'id', '') == arg.id for t in n.targets):
+                src = ast.unparse(n.value)
+    return 'computed:' + src
+
+
+def async_per_instance():
+    """(how the object is built, distinct framer objects, distinct transaction managers, distinct buffers after one
+    of them received a partial frame) for two objects built without a framer argument"""
+    import warnings
+    with warnings.catch_warnings():
+        warnings.simplefilter('ignore')
+        from pymodbus.client.asynchronous import twisted as T
+    rows = []
+    builders = [('ModbusClientProtocol', lambda: T.ModbusClientProtocol()),
+                ('ModbusTcpClientProtocol', lambda: T.ModbusTcpClientProtocol()),
+                ('ModbusSerClientProtocol', lambda: T.ModbusSerClientProtocol()),
+                ('ModbusUdpClientProtocol', lambda: T.ModbusUdpClientProtocol()),
+                ('ModbusClientFactory.buildProtocol', lambda: T.ModbusClientFactory().buildProtocol(None))]
+    for name, mk in builders:
+        a, b = mk(), mk()
+        a.framer.addToFrame(b'\x00\x01\x00')
+        rows.append((name, (a.framer is not b.framer, a.transaction is not b.transaction,
+                            len(b.framer._buffer) == 0)))
+        a.framer.resetFrame()
+    return rows
+
+
+def async_init_reads_self_framer():
+    """ast: does the right-hand side of the first `self.framer = ...` in ModbusClientProtocol.__init__ mention
+    `self.framer` (i.e. can a class-level framer object leak into the instance)?"""
+    import ast
+    import pymodbus.client.asynchronous.twisted as T
+    tree = ast.parse(open(T.__file__).read())
+    init = [f for c in tree.body if isinstance(c, ast.ClassDef) and c.name == 'ModbusClientProtocol'
+            for f in c.body if isinstance(f, ast.FunctionDef) and f.name == '__init__'][0]
+    for st in ast.walk(init):
+        if isinstance(st, ast.Assign) and any(isinstance(t, ast.Attribute) and t.attr == 'framer' and
+                                              getattr(t.value, 'id', '') == 'self' for t in st.targets):
+            return any(isinstance(n, ast.Attribute) and n.attr == 'framer' and getattr(n.value, 'id', '') == 'self'
+                       for n in ast.walk(st.value))
+    raise RuntimeError('ModbusClientProtocol.__init__ does not assign self.framer')
 
 
 def txn_sizes():
@@ -371,6 +443,11 @@ def client_lock_info(path=None):
                                         scope = 'connectOnlyWhenCold'
                             else:
                                 scope = 'partial'
+                                # the `with` covers connect + transaction.execute, but something is written after it
+                                after = [x for x in f.body if x is not withs[0] and not isinstance(x, ast.Expr)]
+                                if after and any(calls(x, 'self._broadcast') or calls(x, 'self.transaction._transact')
+                                                 for x in after):
+                                    scope = 'broadcastOutside'
                         elif withs or mentions_lock(f):
                             scope = 'partial'
                             # explicit acquire ... try/finally release: is the connect inside the try?
